@@ -26,14 +26,15 @@ func zzEntry_MODELNAME[CH any, DB any, IN ~int32](f func(*CH, *DB, IN, IN, IN, *
 // is a failed obligation) versus the Go API on Go-allocated arrays holding the same symbolic
 // values: 2 cells, 2 parameter sets, 2 input blocks, 2 timesteps; caller-supplied states.
 //vsym:prop=C03 tier=quick ints=int floats=real timeout=60 wall=240 cut=3 unwind=80
-func H_C03_entry_MODELNAME() { c03entry_MODELNAME(false) }
+func H_C03_entry_MODELNAME() { c03entry_MODELNAME(false, 2) }
 
 // H_C03_entryinit_MODELNAME: the same with initStates = true: the library initialises the
-// states itself and copies the final states back into the caller's buffer.
+// states itself and copies the final states back into the caller's buffer; 3 parameter sets for
+// 2 cells (a parameter table wider than the run).
 //vsym:prop=C03 tier=quick ints=int floats=real timeout=60 wall=240 cut=3 unwind=80
-func H_C03_entryinit_MODELNAME() { c03entry_MODELNAME(true) }
+func H_C03_entryinit_MODELNAME() { c03entry_MODELNAME(true, 3) }
 
-func c03entry_MODELNAME(initStates bool) {
+func c03entry_MODELNAME(initStates bool, nSets int) {
 	name := "MODELNAME"
 	switch name {
 	case "Sacramento", "Storage", "ClimateVariables", "GR4J", "Lag", "StorageRouting", "RatingCurvePartition":
@@ -43,7 +44,7 @@ func c03entry_MODELNAME(initStates bool) {
 		return
 	}
 	vsym.Summarise("NoKernelImplicit")
-	const N, T, nSets, nBlocks = 2, 2, 2, 2
+	const N, T, nBlocks = 2, 2, 2
 	m := sim.Catalog[name]()
 	desc := m.Description()
 	if len(desc.Dimensions) > 0 {
@@ -102,7 +103,7 @@ func c03entry_MODELNAME(initStates bool) {
 		}
 	}
 	zzEntry_MODELNAME(RunSingleModel, unsafe.Pointer(&cname[0]),
-		inBuf, nBlocks, int32(nI), T, parBuf, int32(nP), nSets, stBuf, N, int32(nS), outBuf, N, int32(nO), int32(OT), initStates)
+		inBuf, nBlocks, int32(nI), T, parBuf, int32(nP), int32(nSets), stBuf, N, int32(nS), outBuf, N, int32(nO), int32(OT), initStates)
 	vsym.Reach("entry-point-returned")
 	// Go API on the Go-allocated copies
 	g := sim.Catalog[name]()
